@@ -224,6 +224,15 @@ def check_reuse(x1, x2, p, fname):
 
 def replay(rep):
     r = rep['replay']; x = vlib.unhexv(r['x'])
+    if r.get('kind') == 'dtype':
+        import spectrum as _sp
+        f = {'arcovar': _sp.arcovar, 'modcovar': _sp.modcovar, 'corrmtx_covariance': lambda b, q: (_sp.corrmtx(b, q, 'covariance'),),
+             'corrmtx_modified': lambda b, q: (_sp.corrmtx(b, q, 'modified'),)}[r['function']]
+        cplx = r['datatype'] == 'complex64'
+        xx = x if cplx else np.real(x)
+        want = f(xx, r['order']); got = f(xx.astype(np.complex64 if cplx else np.float32), r['order'])
+        return all(np.shape(g) == np.shape(w) and np.max(np.abs(np.asarray(g, dtype=complex) - np.asarray(w, dtype=complex))) <= 2e-3 * max(1.0, np.max(np.abs(w)))
+                   for g, w in zip(got, want))
     if r.get('kind') == 'reuse':
         x2 = vlib.unhexv(r['x2'])
         if r.get('datatype') == 'real':
@@ -486,3 +495,29 @@ def run(ctx):
             bad = [('stateless/' + fname, 'raised %r' % (e,))]
         for key, what in bad:
             ctx.violation(key, what, {'kind': 'reuse', 'function': fname, 'x': vlib.hexv(np.asarray(x1, dtype=complex)), 'x2': vlib.hexv(np.asarray(x2, dtype=complex)), 'order': p, 'datatype': tag})
+
+    # ---------------- input dtype: single-precision real / complex records are data too (values exactly representable)
+    import spectrum as _sp
+    for it in range(ctx.q(16, 120)):
+        fname = ['arcovar', 'modcovar', 'corrmtx_covariance', 'corrmtx_modified'][it % 4]
+        cplx = bool((it // 4) % 2); N = int(rng.integers(12, 41)); p = int(rng.integers(1, min(N // 4, 5) + 1))
+        x = rng.integers(-8, 9, size=N).astype(float) + (1j * rng.integers(-8, 9, size=N) if cplx else 0)
+        if not np.any(x):
+            x[0] = 1
+        lo = x.astype(np.complex64 if cplx else np.float32)
+        f = {'arcovar': _sp.arcovar, 'modcovar': _sp.modcovar,
+             'corrmtx_covariance': lambda b, q: (_sp.corrmtx(b, q, 'covariance'),), 'corrmtx_modified': lambda b, q: (_sp.corrmtx(b, q, 'modified'),)}[fname]
+        tag = 'complex64' if cplx else 'float32'
+        ctx.count('search/dtype/%s/%s' % (fname, tag)); ctx.case(('dtype', fname, x.tobytes(), p, tag), nontrivial=True)
+        rep = {'kind': 'dtype', 'function': fname, 'x': vlib.hexv(np.asarray(x, dtype=complex)), 'order': p, 'datatype': tag}
+        try:
+            want = f(x, p); got = f(lo, p)
+            bad = False
+            for g, w in zip(got, want):
+                g = np.atleast_1d(np.asarray(g, dtype=complex)); w = np.atleast_1d(np.asarray(w, dtype=complex))
+                if g.shape != w.shape or (w.size and np.max(np.abs(g - w)) > 2e-3 * max(1.0, np.max(np.abs(w)))):
+                    bad = True
+            if bad:
+                ctx.violation('dtype/%s/%s' % (fname, tag), '%s on %s data (values exactly representable) differs from the result on the same samples in double precision' % (fname, tag), rep)
+        except Exception as e:
+            ctx.violation('dtype/%s/%s' % (fname, tag), '%s raised %r on %s data' % (fname, e, tag), rep)
